@@ -62,6 +62,7 @@ package jmespath
 
 //@ func Search
 //@   tags C08 C06
+//@   requires[C11] text: whole(expression)
 //@   ensures failure: result1 != nil ==> result0 == nil
 //@   ensures public: result1 != nil ==> pubCat(result1) != 0
 
@@ -72,11 +73,13 @@ package jmespath
 
 //@ func Compile
 //@   tags C08 C04 C06
+//@   requires[C11] text: whole(expression)
 //@   ensures failure: result1 != nil ==> result0 == nil && pubCat(result1) != 0
 //@   ensures success: result1 == nil ==> result0 != nil && fresh(result0)
 
 //@ func MustCompile
 //@   tags C06 C03
+//@   requires[C11] text: whole(expression)
 //@   maypanic true
 //@   note panics exactly when Parse fails (the only panic instruction is on that branch)
 //@   ensures result != nil
